@@ -233,6 +233,9 @@ type totalAnalysis struct {
 	untrustedParam func(fn *ssa.Function, p *ssa.Parameter) bool
 	pre      map[*ssa.Function]func(s *tstate, args []ssa.Value, at ssa.Instruction, fn *ssa.Function) // precondition checks
 	entryInv func(s *tstate, fn *ssa.Function)
+	// sibPre: for a lazily included sibling method, the length lower bounds its slice arguments had at the call
+	// site that pulled it in; assumed at its entry, checked at every other call site
+	sibPre map[*ssa.Function]map[int]int64
 	trustedCallee func(f *ssa.Function) (ok bool)
 	constCall func(call *ssa.Call) (int64, bool)
 	maxPaths int
@@ -417,6 +420,11 @@ func (an *totalAnalysis) analyse(fn *ssa.Function) {
 	}
 	if an.entryInv != nil {
 		an.entryInv(s, fn)
+	}
+	for i, n := range an.sibPre[fn] {
+		if i < len(fn.Params) {
+			s.assume(konst(n), s.lenOfValue(fn.Params[i]), 0)
+		}
 	}
 	sm := an.summ[fn]
 	if sm == nil {
@@ -1329,6 +1337,35 @@ func (s *tstate) doCall(call *ssa.Call) {
 			nc, nf := derefNamed(rc.Type()), derefNamed(rf.Type())
 			if nc != nil && nf != nil && nc.Obj() == nf.Obj() {
 				an.T[f] = true
+				// what this call site knows about the lengths of the slices it hands over becomes the helper's
+				// declared precondition (the statements were moved out of a context that had established it)
+				pre := map[int]int64{}
+				for i, a := range cc.Args {
+					if !isSliceLike(a.Type()) {
+						continue
+					}
+					ln := s.lenOfValue(a)
+					best := int64(0)
+					for _, n := range []int64{1, 2, 8, 12, 13, 32, 33} {
+						if s.entails(konst(n), ln, 0) {
+							best = n
+						}
+					}
+					if best > 0 {
+						pre[i] = best
+					}
+				}
+				if an.sibPre == nil {
+					an.sibPre = map[*ssa.Function]map[int]int64{}
+				}
+				an.sibPre[f] = pre
+			}
+		}
+	} else if f != nil && an.sibPre[f] != nil {
+		for i, n := range an.sibPre[f] {
+			if i < len(cc.Args) {
+				ok := s.entails(konst(n), s.lenOfValue(cc.Args[i]), 0)
+				an.ob("precondition", call, l.fname(f)+" argument "+fmt.Sprint(i)+" needs len >= "+fmt.Sprint(n), ok, "the helper was analysed under the length its first call site establishes; this call site does not establish it")
 			}
 		}
 	}
